@@ -1,5 +1,5 @@
 """C09 — get_reusable_executor returns a live, correctly configured singleton (decision model M1R + E1)"""
 from ..e1 import ReusePart
 
-PROP = ReusePart("C09", ["C09", "C03", "C01"], ["LokyModel.Props.C09"], quick=1000, thorough=30000,
-                 families=[("reuse", 4), ("reusecrash", 2), ("reusebig", 1)])
+PROP = ReusePart("C09", ["C09", "C03", "C01"], ["LokyModel.Props.C09"], quick=1500, thorough=30000,
+                 families=[("reuse", 3), ("reusecrash", 2), ("reusegrow", 3), ("reusebig", 1)])
